@@ -61,9 +61,12 @@ def parse_template(text):
     while i < n:
         ln = lines[i]
         d = DIRECTIVE.match(ln)
-        if d and d.group(1) == 'consts':
-            crate, _, path = d.group(2).partition('::')
+        if d and d.group(1) in ('consts', 'consts!'):
+            arg = d.group(2)
+            force = d.group(1).endswith('!')     # `//@consts! crate :: path`: emit even if a same-named const exists (inside a `mod`)
+            crate, _, path = arg.partition('::')
             spec = ItemSpec(crate.strip(), path.strip(), i + 1)
+            spec.force = force
             spec.indent = re.match(r'\s*', ln).group(0)
             out.append(('consts', spec))
             i += 1
@@ -550,8 +553,14 @@ def build_unit(name, template_text, sources, read_template=None):
                     if not re.search(r'const\s+%s\s*:\s*(u8|u16|u32|u64|u128|usize|i8|i16|i32|i64|isize|f32|f64|bool|char|&\s*(\'static\s+)?str)\s*=' % re.escape(it.name), src.item_text(it)) \
                             and not re.search(r'const\s+%s\s*:\s*Duration\s*=\s*Duration::from_(millis|secs)\(\s*[0-9_]+\s*\)' % re.escape(it.name), src.item_text(it)):
                         continue
-                    if re.search(r'(?<![A-Za-z0-9_])const\s+%s\s*:' % re.escape(it.name), have):
-                        continue
+                    if not getattr(spec, 'force', False):
+                        mo_prev = re.search(r'(?<![A-Za-z0-9_])const\s+%s\s*:[^=]*=\s*([^;]*);' % re.escape(it.name), have)
+                        if mo_prev:
+                            mo_new = re.search(r'=\s*([^;]*);', src.item_text(it))
+                            if mo_new and norm(mo_new.group(1)) != norm(mo_prev.group(1)):
+                                raise ExtractError('constant %s of %s has another value than the same-named constant already in the unit'
+                                                   % (it.name, spec.path))
+                            continue
                     sub = ItemSpec(spec.crate, (spec.path + ' > ' if spec.path else '') + 'const ' + it.name, spec.tline)
                     sub.indent = spec.indent
                     gl, item = build_item(src, sub, idx, log)
